@@ -928,7 +928,7 @@ Fixpoint exec_gen (h : handlers) (fuel : nat) (cls : string) (ops : list gop) (e
                               (* after the yield *)
                               match h_sizes h sv s2 with
                               | Ok sz =>
-                                  if st_cur (sv_store sv) <? var_start s2 + sz
+                                  if st_cur (sv_store sv) <=? var_start s2 + sz
                                   then fail_held (Raised err_OUT_OF_MEMORY s2)
                                   else
                                     match sub "StringSpace"%string (fn_body tbl_StringSpace_rebuild)
